@@ -306,6 +306,10 @@ def call_builtin(ev, name, args, kwargs, node):
         return App("sum", (as_v(ev, args[0]),))
     if name == "range":
         return App("range", [as_v(ev, a) for a in args])
+    if name == "slice" and 1 <= len(args) <= 3 and not kwargs:
+        vs = [as_v(ev, a) for a in args]
+        lo, hi, st = (Const(None), vs[0], Const(None)) if len(vs) == 1 else (vs[0], vs[1], vs[2] if len(vs) == 3 else Const(None))
+        return App("slice", (lo, hi, st))     # the object `a:b:c` denotes in a subscript
     if name == "map" and len(args) == 2:
         # map(f, seq) is the generator (f(x) for x in seq)
         f, seq = args
@@ -457,6 +461,12 @@ def np_call(ev, name, args, kwargs, node):
             ev.event("inplace", how="overwrite_input=", root=root, target="arg0", node=node, value=A[0])
     if name in ("remainder", "mod", "floor_divide", "true_divide", "power", "negative", "positive") and name in ("remainder", "mod", "floor_divide") and len(A) >= 2:
         return ev.binop("Mod" if name in ("remainder", "mod") else "FloorDiv", as_v(ev, A[0]), as_v(ev, A[1]), node)   # the ufunc forms of % and //
+    if name == "take" and len(A) >= 2 and set(kwargs) <= {"axis"}:
+        ax = kwargs.get("axis", A[2] if len(A) > 2 else None)
+        if ax == Const(0):
+            return getitem(ev, as_v(ev, A[0]), as_v(ev, A[1]), node)                                   # np.take(a, i, axis=0) is a[i]
+        if ax == Const(-1):
+            return getitem(ev, as_v(ev, A[0]), Tup([Const(Ellipsis), as_v(ev, A[1])]), node)           # np.take(a, i, axis=-1) is a[..., i]
     if name == "insert" and len(A) == 3 and not kwargs:
         # np.insert(A, np.searchsorted(A, B), B): the sorted merge of B into the ascending array A — with B CAST TO A's dtype
         # (np.insert keeps the dtype of its first argument). As a value: sort(concat(A, cast(B))).
